@@ -23,7 +23,7 @@ Engine.apply_user_actions, evaluated after every SUCCESSFUL bundle.
 Bound: the generator only writes reference values that exist at the time of writing (no
 deliberately dangling ids, fields only get columns of their section's table): the property is about
 what the ENGINE's cascades leave behind, not about garbage written by the caller."""
-import os, sys
+import os, re, sys
 sys.path.insert(0, os.path.dirname(os.path.dirname(os.path.abspath(__file__))))
 from vlib import common
 from vlib.rtc import eng, explore, gen
@@ -121,7 +121,8 @@ def metadata_clauses(e):
     if not t["rawViewSectionRef"]:
       p.append("table #%s %r has no raw view section" % (t["id"], t["tableId"]))
     elif raw is not None and raw["tableRef"] != t["id"]:
-      p.append("raw section #%s of table #%s shows table #%s" % (raw["id"], t["id"], raw["tableRef"]))
+      p.append("raw section #%s of %s table #%s shows table #%s"
+               % (raw["id"], "summary" if t["summarySourceTable"] else "user", t["id"], raw["tableRef"]))
     card = secs.get(t["recordCardViewSectionRef"])
     if card is not None and card["tableRef"] != t["id"]:
       p.append("record-card section #%s of table #%s shows table #%s"
@@ -337,6 +338,12 @@ class C09Monitor(explore.Monitor):
 
   def classify(self, clause, detail, bundle, history):
     kinds = "+".join(sorted(set(a[0] for a in bundle if isinstance(a, list) and a)))
+    probs = detail.get("problems") or []
+    if clause == "C09.table_has_raw_section" and probs and \
+        all(re.match(r"raw section #\d+ of summary table #\d+ shows table", x) for x in probs):
+      for a in bundle:
+        if isinstance(a, list) and a and a[0] in ("DetachSummaryViewSection", "UpdateSummaryViewSection"):
+          return "raw section of a summary table re-targeted by %s" % a[0]
     if clause == "C09.refs_resolve":
       return "dangling %s after %s" % (",".join(detail.get("kinds", [])), kinds)
     return "%s after %s" % (clause, kinds)
@@ -363,7 +370,9 @@ def main():
                           "from schema.schema_create_actions()); non-trivial = the bundle changed "
                           "the document or raised" % len(ref_columns()))
   rep.coverage["ref_columns_checked"] = len(ref_columns())
-  explore.explore(rep, "checks.C09", "C09Monitor")
+  from checks import C02
+  C02.tune_explore()
+  explore.explore(rep, "checks.C09", "C09Monitor", n_quick=128, budget_quick_s=45)
   return rep.finish()
 
 
